@@ -25,6 +25,7 @@ Nothing of /repo is imported or executed: both readers interpret the IR built fr
 from __future__ import annotations
 
 import ast
+import copy
 import itertools
 from fractions import Fraction
 from math import gcd
@@ -490,6 +491,16 @@ class Translator:
     def __init__(self, func_node: ast.FunctionDef, roles: Roles):
         self.fn = func_node
         self.roles = roles
+        # generator expressions kept in a local: assigned once, loaded once (by the next() that consumes it)
+        self.gen_locals: Dict[str, ast.GeneratorExp] = {}
+        for n in ast.walk(func_node):
+            if isinstance(n, ast.Assign) and len(n.targets) == 1 and isinstance(n.targets[0], ast.Name) \
+                    and isinstance(n.value, ast.GeneratorExp):
+                nm = n.targets[0].id
+                stores = [x for x in ast.walk(func_node) if isinstance(x, ast.Name) and x.id == nm and isinstance(x.ctx, ast.Store)]
+                loads = [x for x in ast.walk(func_node) if isinstance(x, ast.Name) and x.id == nm and isinstance(x.ctx, ast.Load)]
+                if len(stores) == 1 and len(loads) == 1:
+                    self.gen_locals[nm] = n.value
         self.int_vars = self._infer_int_vars()
 
     # -- which locals are integers -------------------------------------------------------
@@ -566,19 +577,41 @@ class Translator:
 
     def first_index(self, e) -> Optional[tuple]:
         """next((i for i in range(..) if cond), default): the least index of the range satisfying cond, else default."""
-        if not (isinstance(e, ast.Call) and isinstance(e.func, ast.Name) and e.func.id == 'next' and len(e.args) == 2
-                and isinstance(e.args[0], ast.GeneratorExp) and len(e.args[0].generators) == 1):
+        if not (isinstance(e, ast.Call) and isinstance(e.func, ast.Name) and e.func.id == 'next' and len(e.args) == 2):
             return None
         g = e.args[0]
-        c = g.generators[0]
-        if not (isinstance(c.target, ast.Name) and isinstance(g.elt, ast.Name) and g.elt.id == c.target.id and len(c.ifs) == 1
-                and isinstance(c.iter, ast.Call) and isinstance(c.iter.func, ast.Name) and c.iter.func.id == 'range'
-                and 1 <= len(c.iter.args) <= 2 and not c.is_async):
+        if isinstance(g, ast.Name) and g.id in self.gen_locals:
+            g = self.gen_locals[g.id]            # a generator expression kept in a local that is consumed here only
+        if not (isinstance(g, ast.GeneratorExp) and len(g.generators) == 1):
             return None
-        args = [self.expr(a) for a in c.iter.args]
-        lo, hi = (('int', 0), args[0]) if len(args) == 1 else (args[0], args[1])
-        self.int_vars.add(c.target.id)
-        return ('first', c.target.id, lo, hi, self.expr(c.ifs[0]), self.expr(e.args[1]))
+        c = g.generators[0]
+        if c.is_async or len(c.ifs) != 1:
+            return None
+        if isinstance(c.target, ast.Name) and isinstance(g.elt, ast.Name) and g.elt.id == c.target.id \
+                and isinstance(c.iter, ast.Call) and isinstance(c.iter.func, ast.Name) and c.iter.func.id == 'range' \
+                and 1 <= len(c.iter.args) <= 2:
+            args = [self.expr(a) for a in c.iter.args]
+            lo, hi = (('int', 0), args[0]) if len(args) == 1 else (args[0], args[1])
+            self.int_vars.add(c.target.id)
+            return ('first', c.target.id, lo, hi, self.expr(c.ifs[0]), self.expr(e.args[1]))
+        # (i for i, x in enumerate(seq) if cond(x)): the element name stands for seq[i]
+        if isinstance(c.target, ast.Tuple) and len(c.target.elts) == 2 and all(isinstance(t_, ast.Name) for t_ in c.target.elts) \
+                and isinstance(g.elt, ast.Name) and g.elt.id == c.target.elts[0].id \
+                and isinstance(c.iter, ast.Call) and isinstance(c.iter.func, ast.Name) and c.iter.func.id == 'enumerate' \
+                and len(c.iter.args) == 1 and not c.iter.keywords and self.arr_name(c.iter.args[0]):
+            i_name, x_name = c.target.elts[0].id, c.target.elts[1].id
+            seq = c.iter.args[0]
+
+            class _Sub(ast.NodeTransformer):
+                def visit_Name(self, n):
+                    if n.id == x_name and isinstance(n.ctx, ast.Load):
+                        return ast.copy_location(ast.Subscript(value=copy.deepcopy(seq), slice=ast.Name(id=i_name, ctx=ast.Load()),
+                                                               ctx=ast.Load()), n)
+                    return n
+            cond = ast.fix_missing_locations(_Sub().visit(copy.deepcopy(c.ifs[0])))
+            self.int_vars.add(i_name)
+            return ('first', i_name, ('int', 0), ('len', self.arr_name(seq)), self.expr(cond), self.expr(e.args[1]))
+        return None
 
     def truth(self, e) -> tuple:
         """An expression in a boolean position: a sequence is true when it is not empty."""
@@ -695,7 +728,7 @@ class Translator:
             return []
         if isinstance(s, ast.Assign) and len(s.targets) == 1:
             t = s.targets[0]
-            if isinstance(t, ast.Name) and t.id in self.roles.skip_assign:
+            if isinstance(t, ast.Name) and (t.id in self.roles.skip_assign or t.id in self.gen_locals):
                 return []
             if isinstance(t, ast.Name):
                 if isinstance(s.value, (ast.List, ast.ListComp)) and t.id in self.roles.emit_lists:
